@@ -830,3 +830,31 @@ package genql
 //@   loop 2 ascending-range key-columns-in-the-order-of-on[C04]: columns
 //@   at-call ExecReader assert the-key-is-read-from-this-row-at-this-column[C04]: arg0 == row && arg1 == column
 //@   at-call append:hashedTable.Rows[hash] assert the-row-joins-the-bucket-of-its-key[C04]: appended == &r
+
+// ---------------------------------------------------------------------------
+// C07: naming an intermediate result does not change it. The contracts pin the plumbing: what the outer query reads is
+// exactly what the inner run returned, and a row-scoped subquery is prepared against the current row.
+
+// a CTE is a thunk stored under its name; when first read it runs its definition to the end (execAndPostProcess: the
+// definition's ASYNC calls are awaited and its post processors run) and replaces itself by the rows
+//@ func BuildCte
+//@   at-call mapstore:data[id] assert a-cte-is-registered-as-a-thunk[C07]: typeis(stored, CteEvaluation)
+//@ func BuildCte$1
+//@   at-call Prepare assert definition-runs-on-the-document-of-the-query[C07]: arg0 == data && arg1 == copy.Subquery && arg2 == query.options
+//@   ensures yields-the-rows-of-its-definition[C07]: err == nil ==> called(execAndPostProcess) && result == callresult(execAndPostProcess, 0)
+//@   at-call mapstore:data[id] assert replaced-by-its-rows-or-the-reentry-guard[C07]: typeis(stored, CteEvaluation) || (called(execAndPostProcess) && stored == callresult(execAndPostProcess, 0))
+
+// FROM name / FROM (SELECT ...) alias: the rows of the outer query are the rows the name or the inner run yields, under the alias
+//@ func BuildFromAliasedTable
+//@   at-call Prepare assert derived-table-runs-on-the-document-of-the-query[C07]: arg0 == query.data && arg2 == query.options
+//@   at-call AsArray:data assert rows-come-from-the-source-named-in-from[C07]: (called(exec) && arg0 == callresult(exec, 0)) || (called(ExecReader) && !called(exec))
+//@   at-call ProcessAlias assert rows-go-under-the-alias-unchanged[C07]: arg1 == as && called(AsArray)
+//@   ensures derived-table-rows[C07]: err == nil && called(exec) ==> query.from == callresult(ProcessAlias, 0, 3)
+
+// (SELECT ...) in the select list, EXISTS (...): the subquery is prepared against the current row, whose `<-` entry is the enclosing document
+//@ func SubqueryExpr
+//@   at-call Prepare assert scoped-to-the-current-row[C07]: arg0 == current && arg1 == expr.Select && arg2 == query.options && has(current, "<-") && current["<-"] == any(query.data)
+//@   ensures contributes-what-the-subquery-returns[C07]: err == nil ==> called(exec) && result == callresult(exec, 0)
+//@ func ExistExpr
+//@   at-call Prepare assert scoped-to-the-current-row[C07]: arg0 == current && arg1 == expr.Subquery.Select && arg2 == query.options && has(current, "<-") && current["<-"] == any(query.data)
+//@   ensures true-iff-the-subquery-returns-a-row[C07]: err == nil ==> called(exec) && typeis(callresult(exec, 0), []any) && result == (len(callresult(exec, 0).([]any)) > 0)
